@@ -108,7 +108,7 @@ def repr_def(rng, did, n=None, repr_=None, anchored=None, kinds="mixed", generic
         ks = [k for k, v in enumerate(vs) if v["disc"] and 2 <= E["absvals"][k] <= 100 and not str(v.get("discx", "")).startswith("-")]
         if ks:
             k = rng.choice(ks)
-            E["macro_expr"] = dict(k=k, a="%d + 1" % (E["absvals"][k] // 2 - 1), r=E["absvals"][k] % 2)
+            E["macro_expr"] = dict(k=k, a="%d + 1" % (E["absvals"][k] // 2 - 1), r=E["absvals"][k] % 2, form=rng.randrange(2))
     has_data = any(v["kind"] != "unit" for v in vs)
     has_explicit = any(v["disc"] for v in vs)
     # rustc: explicit discriminants on an enum with data need a primitive repr; negative values need a signed type
@@ -134,8 +134,11 @@ def fromrepr_module(E):
     body = []
     # ground truth for Discr
     casts = []
+    # rustc itself mis-compiles `V as i8` when the variant lies more than 127 positions after an explicit negative discriminant
+    # (the offset is added in i8: "attempt to add with overflow"); such enums are read through the tag instead
+    wide = E["repr"] == "i8" and len(E["variants"]) > 127
     for i, v in enumerate(E["variants"]):
-        if fieldless:
+        if fieldless and not wide:
             cast_ty = "isize" if E["repr"] == "none" else R
             casts.append('format!("[{},{}]", %d, (%s as %s) as i128 - ANCHOR)' % (i + 1, D.ctor(E, v, 0), cast_ty))
         elif E["repr"] != "none":
@@ -156,7 +159,10 @@ def fromrepr_module(E):
             if not v["dis"]:
                 c = D.ctor(E, v, 0)
                 cast_ty = "usize" if E["repr"] == "none" else R
-                oks.append("if %s::from_repr(%s as %s) == Some(%s) { ok.push(%d.to_string()); }" % (E["name"], c, cast_ty, c, i + 1))
+                if wide:
+                    oks.append("if %s::from_repr(unsafe { *(&%s as *const %s as *const %s) }) == Some(%s) { ok.push(%d.to_string()); }" % (E["name"], c, inst, R, c, i + 1))
+                else:
+                    oks.append("if %s::from_repr(%s as %s) == Some(%s) { ok.push(%d.to_string()); }" % (E["name"], c, cast_ty, c, i + 1))
         body.append("    { let mut ok: Vec<String> = Vec::new(); %s" % " ".join(oks))
         body.append('      o.line(&format!("{{\\"op\\":\\"reprrt\\",\\"def\\":%d,\\"ok\\":{}}}", jlist(&ok))); }' % did)
     src += "\n".join(body) + "\n}\n"
@@ -228,12 +234,13 @@ def disc_def(rng, did):
         if ks:
             k = rng.choice(ks)
             val = E["absvals"][k]
-            E["macro_expr"] = dict(k=k, a="%d + 1" % (val // 2 - 1), r=val % 2)
+            E["macro_expr"] = dict(k=k, a="%d + 1" % (val // 2 - 1), r=val % 2, form=rng.randrange(2))
     E["dname"] = rng.choice(["", "", "Kind%d" % did])
     E["dvis"] = rng.choice(["", "", "pub", "pub(crate)", "pub(super)"])
     E["dder"] = rng.random() < 0.7
     E["dstyle"] = rng.choice(["none", "snake_case", "SCREAMING_SNAKE_CASE", "kebab-case", "camelCase"]) if E["dder"] else "none"
     E["dsplit"] = rng.randrange(2)
+    E["ddefault"] = rng.random() < 0.3          # derive(Default) on the discriminant enum + #[strum_discriminants(default)] on one variant
     for k, v in enumerate(E["variants"]):
         r = rng.random()
         # one or two separate variant-level pass-through attributes (the longer literal names the variant)
@@ -253,6 +260,8 @@ def disc_module(E):
         items.append("name(%s)" % dn)
     if E["dvis"]:
         items.append("vis(%s)" % E["dvis"])
+    if E.get("ddefault") and E["variants"]:
+        items.append("derive(Default)")
     if E["dder"]:
         items.append("derive(strum::EnumIter, strum::EnumString, strum::Display, strum::EnumCount, Hash)")
         if E["dstyle"] != "none":
@@ -270,9 +279,12 @@ def disc_module(E):
         if v.get("dser"):
             v = dict(v)
             v["xattrs"] = list(v.get("xattrs", [])) + ['#[strum_discriminants(strum(serialize = %s))]' % D.rs_str(s) for s in v["dser"]]
+        if E.get("ddefault") and k == len(E["variants"]) // 2:
+            v = dict(v)
+            v["xattrs"] = list(v.get("xattrs", [])) + ["#[strum_discriminants(default)]", '#[strum_discriminants(doc = "the default kind")]']
         if mx and mx["k"] == k:
             v = dict(v)
-            v["discx"] = "$e0 * 2 + %d" % mx["r"]
+            v["discx"] = D.MACRO_EXPR_FORMS[mx.get("form", 0)] % mx["r"]
             ref_discx[k] = "(%s) * 2 + %d" % (mx["a"], mx["r"])
         lines += D.print_variant(v, 0, with_strum=False, indent="    ")
     lines.append("}")
